@@ -86,8 +86,11 @@ pub fn divide(mem: &mut Memory, args: &[GcRef], _env: GcRef, _recursion_depth: u
     if *y == 0 {
         Err(make_error(mem, "divide-by-zero", DIVIDE.name, &vec![]))
     }
+    else if let Some(z) = x.checked_div(*y) {
+        Ok(mem.allocate_number(z))
+    }
     else {
-        Ok(mem.allocate_number(*x / *y))
+        Err(make_error(mem, "arithmetic-overflow", DIVIDE.name, &vec![]))
     }
 }
 
